@@ -36,7 +36,7 @@ func main() {
 		child(os.Args[2:])
 		return
 	}
-	Main("C14", checkC14, iogen.Gen, stateGen)
+	Main("C14", checkC14, stateGen, iogen.Gen)
 }
 
 type tri = [3][3]float64
